@@ -30,6 +30,10 @@ WEIGHTS = {'add': 10, 'add_fwd': 2, 'remove': 3, 'remove_nonchild': 1, 'replace'
            'set_value': 1}
 
 
+# deep copies share nothing: after a fork the histories lean on attribute / value edits and removals on either side
+FORK_WEIGHTS = dict(WEIGHTS, set_attr=6, set_attr_none=5, set_value=2, remove=4, add=6)
+
+
 def solo_trace(spec):
     """spec = {'element': el, 'ops': [...]} (ops may contain 'deepcopy' / 'copy_discard')"""
     run = Run(spec['element'])
@@ -230,7 +234,7 @@ def run_shard(ctx, shard, acc):
                 schedule.append(len(specs) - 1)
                 forked = True
                 continue
-            op = draw_op(data, runs[j], WEIGHTS)
+            op = draw_op(data, runs[j], FORK_WEIGHTS if rel == 'fork' else WEIGHTS)
             runs[j].apply(op)
             specs[j]['ops'].append(op)
             schedule.append(j)
